@@ -1,25 +1,37 @@
 //! C24 — contexts are isolated and safe to share across threads.
 //!
-//! (a) Model correspondence: two programs over real `Context`s / real threads, executed in a
-//!     given total order (the schedule), compared with `runSched` of the Lean model:
-//!       C24 sched p=<ops> q=<ops> s=<0/1…> nctx=<n> nthr=<n>   ->  <outs of p>|<outs of q>
-//!     ops: cp:c (is_cancelled) ca:c (cancel) gr:c:v (lazy resolver cell: token of the first
-//!     initialiser) rs:c (context's own setting) bs:t:v (settings builder call on thread t)
-//!     rt:t / st:t:v (legacy thread-local setting of thread t).
-//! (b) Real concurrency (oracle only): 1–16 threads × shared / distinct contexts running reads
-//!     and signs with random delays, a canceller hitting *other* contexts, settings-builder
-//!     calls; every result must equal the sequential baseline and no thread-local value moves.
+//! (a) Model correspondence: programs over real `Context`s / real threads, executed in a given
+//!     total order (the schedule), compared with `runSched` / `runSchedN` of the Lean model:
+//!       C24 sched  p=<ops> q=<ops> s=<0/1…> nctx=<n> nthr=<n>          ->  <outs of p>|<outs of q>
+//!       C24 schedn ps=<ops>/<ops>/… s=<i.i.i…> nctx=<n> nthr=<n>       ->  <outs 0>|<outs 1>|…
+//!     ops: cp:c (a real checkpointed read: cancelled?) ca:c (cancel) gr:c:v (lazy resolver cell,
+//!     caller's token) gss:c / grs:c (lazy signer / resolver cell, the code's own initialiser: a
+//!     function of the context's settings) rs:c (context's own setting) bs:t:v (settings builder
+//!     calls on thread t) rt:t / st:t:v (legacy thread-local settings of thread t) lr:t (context
+//!     based read of the crafted BMFF asset on thread t: goes through the thread-local cap).
+//!     The worker threads' thread-local settings DIFFER from every context's settings (other
+//!     values; for even numbers a decompression cap of 0).
+//! (b) Real concurrency (oracle only): 1–16 threads × shared / distinct contexts running reads AND
+//!     signs (signer created lazily from the shared context's settings) with random delays, a
+//!     canceller hitting *other* contexts, settings-builder calls — every thread first poisons its
+//!     legacy thread-local settings with values that would change results if a context path
+//!     consulted them; every result must equal the baseline of a clean thread and NO key of the
+//!     thread-local settings may move. Then rounds that cancel the SHARED context mid-run: every
+//!     operation ends `cancelled` or with its baseline result, and `cancelled` is sticky.
 
 #![allow(deprecated)]
 
+#[path = "../c24_common.rs"]
+mod cc;
+
 use std::{
     io::Cursor,
-    sync::{mpsc, Arc, Barrier},
+    sync::{mpsc, Arc, Barrier, OnceLock},
 };
 
-use c2pa::{verif_hooks::c25 as tls_hook, Context, Error, Reader, Settings};
-use vh::common::{canon_json, fixtures, guarded, main_with, Rng, Run};
-use vh::sign::{sign_asset, unsigned_sources};
+use c2pa::{Builder, Context, Error, Reader, Settings};
+use vh::common::{fixtures, guarded, main_with, Rng, Run};
+use vh::sign::{definition, sign_asset, unsigned_sources};
 
 fn main() {
     main_with("C24", run);
@@ -27,8 +39,17 @@ fn main() {
 
 const KEY: &str = "core.merkle_tree_max_proofs";
 
-fn ctx_json(v: u64) -> String {
-    format!(r#"{{"core":{{"merkle_tree_max_proofs":{v}}},"verify":{{"remote_manifest_fetch":false,"ocsp_fetch":false}}}}"#)
+fn alg_of(i: usize) -> &'static str {
+    if i % 2 == 0 {
+        "es256"
+    } else {
+        "ps256"
+    }
+}
+
+/// Settings of context `i`: own number `v`, no network, a signer configured in the settings.
+fn ctx_json(v: u64, i: usize) -> String {
+    format!(r#"{{"core":{{"merkle_tree_max_proofs":{v}}},"verify":{{{}}},{}}}"#, cc::NOFETCH, cc::signer_member(alg_of(i)))
 }
 
 #[derive(Clone, Debug)]
@@ -36,10 +57,13 @@ enum Op {
     Cp(usize),
     Ca(usize),
     Gr(usize, u64),
+    Gss(usize),
+    Grs(usize),
     Rs(usize),
     Bs(usize, u64),
     Rt(usize),
     St(usize, u64),
+    Lr(usize),
 }
 
 impl Op {
@@ -48,17 +72,20 @@ impl Op {
             Op::Cp(c) => format!("cp:{c}"),
             Op::Ca(c) => format!("ca:{c}"),
             Op::Gr(c, v) => format!("gr:{c}:{v}"),
+            Op::Gss(c) => format!("gss:{c}"),
+            Op::Grs(c) => format!("grs:{c}"),
             Op::Rs(c) => format!("rs:{c}"),
             Op::Bs(t, v) => format!("bs:{t}:{v}"),
             Op::Rt(t) => format!("rt:{t}"),
             Op::St(t, v) => format!("st:{t}:{v}"),
+            Op::Lr(t) => format!("lr:{t}"),
         }
     }
 
     /// thread that must execute the op (thread-local ops name their thread)
     fn thread(&self, default: usize) -> usize {
         match self {
-            Op::Bs(t, _) | Op::Rt(t) | Op::St(t, _) => *t,
+            Op::Bs(t, _) | Op::Rt(t) | Op::St(t, _) | Op::Lr(t) => *t,
             _ => default,
         }
     }
@@ -68,6 +95,18 @@ struct World {
     ctxs: Vec<Arc<Context>>,
     /// per context: (pointer of the resolver first observed, token of its initialiser)
     resolver_seen: Vec<Option<(usize, u64)>>,
+    /// per context: pointer of the signer first observed
+    signer_seen: Vec<Option<usize>>,
+}
+
+impl World {
+    fn new(nctx: usize) -> World {
+        World {
+            ctxs: (0..nctx).map(|i| Arc::new(Context::new().with_settings(ctx_json(100 + i as u64, i).as_str()).expect("ctx"))).collect(),
+            resolver_seen: vec![None; nctx],
+            signer_seen: vec![None; nctx],
+        }
+    }
 }
 
 type Job = Box<dyn FnOnce() -> String + Send>;
@@ -84,7 +123,7 @@ impl Workers {
             let (s, r) = mpsc::channel::<(Job, mpsc::Sender<String>)>();
             std::thread::spawn(move || {
                 // initial legacy thread-local value of thread t: 200 + t
-                let _ = Settings::from_string(&format!(r#"{{"core":{{"merkle_tree_max_proofs":{}}}}}"#, 200 + t), "json");
+                cc::set_tls(200 + t as u64);
                 while let Ok((job, back)) = r.recv() {
                     let _ = back.send(job());
                 }
@@ -103,31 +142,28 @@ impl Workers {
 
 /// Small signed asset used as the checkpointed probe operation of `cp`.
 fn probe_asset() -> &'static (String, Vec<u8>) {
-    static A: std::sync::OnceLock<(String, Vec<u8>)> = std::sync::OnceLock::new();
+    static A: OnceLock<(String, Vec<u8>)> = OnceLock::new();
     A.get_or_init(|| {
         let src = std::fs::read(fixtures().join("IMG_0003.jpg")).expect("fixture");
         ("image/jpeg".to_string(), sign_asset("image/jpeg", &src, None).expect("sign probe asset"))
     })
 }
 
-fn tls_value() -> String {
-    tls_hook::thread_local_value()
-        .pointer("/core/merkle_tree_max_proofs")
-        .and_then(|v| v.as_u64())
-        .map(|v| v.to_string())
-        .unwrap_or_else(|| "x".to_string())
+/// The crafted BMFF asset of `lr` (built once, on the main thread whose thread-local settings are
+/// never touched).
+fn leaky_asset() -> &'static Result<Vec<u8>, String> {
+    static A: OnceLock<Result<Vec<u8>, String>> = OnceLock::new();
+    A.get_or_init(cc::bmff_compressed_update_asset)
 }
 
 fn exec_op(w: &mut World, workers: &Workers, nthr: usize, op: &Op, default_thread: usize) -> String {
     let t = op.thread(default_thread);
     match op {
-        Op::Cp(c) | Op::Ca(c) | Op::Gr(c, _) | Op::Rs(c) if *c >= w.ctxs.len() => "x".to_string(),
-        Op::Bs(t, _) | Op::Rt(t) | Op::St(t, _) if *t >= nthr => {
-            if matches!(op, Op::Bs(..)) {
-                // a pure builder call needs no particular thread
-                if let Op::Bs(_, v) = op {
-                    return build_settings(*v);
-                }
+        Op::Cp(c) | Op::Ca(c) | Op::Gr(c, _) | Op::Rs(c) | Op::Gss(c) | Op::Grs(c) if *c >= w.ctxs.len() => "x".to_string(),
+        Op::Bs(t, _) | Op::Rt(t) | Op::St(t, _) | Op::Lr(t) if *t >= nthr => {
+            // a pure builder call needs no particular thread
+            if let Op::Bs(_, v) = op {
+                return build_settings(*v);
             }
             "x".to_string()
         }
@@ -155,20 +191,45 @@ fn exec_op(w: &mut World, workers: &Workers, nthr: usize, op: &Op, default_threa
                 "u".into()
             }))
         }
-        Op::Gr(c, v) => {
+        Op::Gr(c, _) | Op::Grs(c) => {
             let ctx = w.ctxs[*c].clone();
             let ptr = workers.exec(t, Box::new(move || {
                 let r = ctx.resolver();
                 format!("{}", Arc::as_ptr(&r) as *const () as usize)
             }));
             let ptr: usize = ptr.parse().unwrap_or(0);
+            // token offered by this caller: its own for `gr`, the context's settings for `grs`
+            let offered = if let Op::Gr(_, v) = op { *v } else { 100 + *c as u64 };
             match w.resolver_seen[*c] {
                 None => {
-                    w.resolver_seen[*c] = Some((ptr, *v));
-                    v.to_string()
+                    w.resolver_seen[*c] = Some((ptr, offered));
+                    offered.to_string()
                 }
                 Some((p, tok)) if p == ptr => tok.to_string(),
                 Some(_) => "resolver-changed".to_string(),
+            }
+        }
+        Op::Gss(c) => {
+            // the signer built lazily from the context's settings: must be the one these settings
+            // configure (algorithm of context c), and the same object for every caller
+            let ctx = w.ctxs[*c].clone();
+            let out = workers.exec(t, Box::new(move || match ctx.signer() {
+                Ok(s) => format!("{} {:?}", s as *const dyn c2pa::Signer as *const () as usize, s.alg()).to_lowercase(),
+                Err(e) => format!("0 err-{e:?}").chars().take(60).collect(),
+            }));
+            let mut it = out.split(' ');
+            let ptr: usize = it.next().and_then(|p| p.parse().ok()).unwrap_or(0);
+            let alg = it.next().unwrap_or("");
+            if alg != alg_of(*c) {
+                return format!("signer-not-from-this-contexts-settings:{alg}");
+            }
+            match w.signer_seen[*c] {
+                None => {
+                    w.signer_seen[*c] = Some(ptr);
+                    (100 + *c as u64).to_string()
+                }
+                Some(p) if p == ptr => (100 + *c as u64).to_string(),
+                Some(_) => "signer-changed".to_string(),
             }
         }
         Op::Rs(c) => {
@@ -179,16 +240,15 @@ fn exec_op(w: &mut World, workers: &Workers, nthr: usize, op: &Op, default_threa
             let v = *v;
             workers.exec(t, Box::new(move || build_settings(v)))
         }
-        Op::Rt(_) => workers.exec(t, Box::new(tls_value)),
+        Op::Rt(_) => workers.exec(t, Box::new(cc::tls_value)),
         Op::St(_, v) => {
             let v = *v;
-            workers.exec(t, Box::new(move || {
-                match Settings::from_string(&format!(r#"{{"core":{{"merkle_tree_max_proofs":{v}}}}}"#), "json") {
-                    Ok(_) => "u".into(),
-                    Err(_) => "err".into(),
-                }
-            }))
+            workers.exec(t, Box::new(move || if cc::set_tls(v) { "u".into() } else { "err".into() }))
         }
+        Op::Lr(_) => workers.exec(t, Box::new(|| match leaky_asset() {
+            Ok(a) => if cc::leaky_read_allows(a) { "T".into() } else { "F".into() },
+            Err(_) => "no-asset".into(),
+        })),
     }
 }
 
@@ -202,8 +262,12 @@ fn build_settings(v: u64) -> String {
     let mut s = Settings::new();
     let d = s.update_from_str(&json, "json").and_then(|_| s.get_value::<u64>(KEY));
     let e = Context::new().with_settings(json.as_str()).and_then(|c| c.settings().get_value::<u64>(KEY));
-    match (a, b, c, d, e) {
-        (Ok(a), Ok(b), Ok(c), Ok(d), Ok(e)) if a == v && b == v && c == v && d == v && e == v => v.to_string(),
+    let mut s2 = Settings::new();
+    let f = s2.set_value(KEY, v).and_then(|_| s2.get_value::<u64>(KEY));
+    let mut cx = Context::new();
+    let g = cx.set_settings(json.as_str()).and_then(|_| cx.settings().get_value::<u64>(KEY));
+    match (a, b, c, d, e, f, g) {
+        (Ok(a), Ok(b), Ok(c), Ok(d), Ok(e), Ok(f), Ok(g)) if [a, b, c, d, e, f, g].iter().all(|x| *x == v) => v.to_string(),
         other => format!("builder-mismatch:{other:?}").replace(' ', ""),
     }
 }
@@ -211,8 +275,8 @@ fn build_settings(v: u64) -> String {
 /// (kind, index) of the cell an op touches; builder calls touch none.
 fn cell(op: &Op) -> Option<(u8, usize)> {
     match op {
-        Op::Cp(c) | Op::Ca(c) | Op::Gr(c, _) | Op::Rs(c) => Some((0, *c)),
-        Op::Rt(t) | Op::St(t, _) => Some((1, *t)),
+        Op::Cp(c) | Op::Ca(c) | Op::Gr(c, _) | Op::Rs(c) | Op::Gss(c) | Op::Grs(c) => Some((0, *c)),
+        Op::Rt(t) | Op::St(t, _) | Op::Lr(t) => Some((1, *t)),
         Op::Bs(..) => None,
     }
 }
@@ -224,59 +288,81 @@ fn indep(a: &Op, b: &Op) -> bool {
     }
 }
 
-fn gen_prog(r: &mut Rng, ctx_pool: &[usize], thr_pool: &[usize], len: usize) -> Vec<Op> {
-    (0..len)
-        .map(|_| {
-            let c = *r.pick(ctx_pool);
-            let t = *r.pick(thr_pool);
-            match r.below(9) {
-                0 | 1 => Op::Cp(c),
-                2 => Op::Ca(c),
-                3 => Op::Gr(c, r.range(1, 99)),
-                4 => Op::Rs(c),
-                5 => Op::Bs(t, r.range(300, 399)),
-                6 | 7 => Op::Rt(t),
-                _ => Op::St(t, r.range(400, 499)),
-            }
-        })
-        .collect()
+fn shared_safe(o: &Op) -> bool {
+    matches!(o, Op::Cp(_) | Op::Rs(_) | Op::Gss(_) | Op::Grs(_) | Op::Bs(..) | Op::Rt(_) | Op::Lr(_))
+}
+
+/// the theorems' hypothesis on two operations of different programs
+fn compat(a: &Op, b: &Op) -> bool {
+    indep(a, b) || (shared_safe(a) && shared_safe(b))
+}
+
+fn gen_op(r: &mut Rng, ctx_pool: &[usize], thr_pool: &[usize], safe_only: bool) -> Op {
+    let c = *r.pick(ctx_pool);
+    let t = *r.pick(thr_pool);
+    loop {
+        let op = match r.below(13) {
+            0 | 1 => Op::Cp(c),
+            2 => Op::Ca(c),
+            3 => Op::Gr(c, r.range(1, 99)),
+            4 => Op::Rs(c),
+            5 => Op::Bs(t, r.range(300, 399)),
+            6 | 7 => Op::Rt(t),
+            8 => Op::St(t, r.range(400, 499)),
+            9 => Op::Gss(c),
+            10 => Op::Grs(c),
+            11 => Op::Lr(t),
+            _ => Op::Cp(c),
+        };
+        if !safe_only || shared_safe(&op) {
+            return op;
+        }
+    }
+}
+
+fn gen_prog(r: &mut Rng, ctx_pool: &[usize], thr_pool: &[usize], len: usize, safe_only: bool) -> Vec<Op> {
+    (0..len).map(|_| gen_op(r, ctx_pool, thr_pool, safe_only)).collect()
+}
+
+const ANOMALIES: [&str; 8] =
+    ["builder-mismatch", "resolver-changed", "worker-died", "flag-inconsistent", "signer-changed", "signer-not-from", "no-asset", "err"];
+
+fn txt(v: &[Op]) -> String {
+    if v.is_empty() {
+        "-".to_string()
+    } else {
+        v.iter().map(|o| o.text()).collect::<Vec<_>>().join(",")
+    }
 }
 
 fn model_cases(run: &mut Run, rng: &mut Rng) {
-    let n = if run.thorough() { 6000 } else { 700 };
+    let n = if run.thorough() { 5000 } else { 500 };
     for _ in 0..n {
         let mut r = rng.fork();
         let nctx = r.range(1, 4) as usize;
         let nthr = r.range(1, 3) as usize;
-        // mostly disjoint cells (the theorem's hypothesis), sometimes overlapping (model still has to agree)
-        let overlap = r.chance(1, 4);
-        let (pc, qc): (Vec<usize>, Vec<usize>) = if overlap || nctx == 1 {
-            ((0..nctx + 1).collect(), (0..nctx + 1).collect())
-        } else {
+        // flavours: 0 disjoint cells, 1 everything shared but only safe operations, 2 anything
+        let flavour = r.below(4).min(2);
+        let all_c: Vec<usize> = (0..nctx + 1).collect();
+        let all_t: Vec<usize> = (0..nthr).collect();
+        let (pc, qc, pt, qt) = if flavour == 0 && nctx > 1 {
             let cut = r.range(1, nctx as u64 - 1).max(1) as usize;
-            ((0..cut).collect(), (cut..nctx).collect())
-        };
-        let (pt, qt): (Vec<usize>, Vec<usize>) = if overlap || nthr == 1 {
-            ((0..nthr).collect(), (0..nthr).collect())
+            let (pt, qt) = if nthr == 1 { (all_t.clone(), all_t.clone()) } else { (vec![0], (1..nthr).collect()) };
+            ((0..cut).collect(), (cut..nctx).collect(), pt, qt)
         } else {
-            (vec![0], (1..nthr).collect())
+            (all_c.clone(), all_c.clone(), all_t.clone(), all_t.clone())
         };
         let lp = r.range(0, 5) as usize;
         let lq = r.range(0, 5) as usize;
-        let p = gen_prog(&mut r, &pc, &pt, lp);
-        let q = gen_prog(&mut r, &qc, &qt, lq);
+        let p = gen_prog(&mut r, &pc, &pt, lp, flavour == 1);
+        let q = gen_prog(&mut r, &qc, &qt, lq, flavour == 1);
         let sched: Vec<bool> = (0..p.len() + q.len() + 2).map(|_| r.chance(1, 2)).collect();
-        // the theorem's hypothesis, evaluated on the generated programs: no op of p touches a
-        // cell (context / thread-local) that an op of q touches
-        let overlap = p.iter().any(|a| q.iter().any(|b| !indep(a, b)));
+        // the theorem's hypothesis, evaluated on the generated programs
+        let compatible = p.iter().all(|a| q.iter().all(|b| compat(a, b)));
+        let shares = p.iter().any(|a| q.iter().any(|b| !indep(a, b)));
 
         let workers = Workers::new(nthr);
-        let mut w = World {
-            ctxs: (0..nctx)
-                .map(|i| Arc::new(Context::new().with_settings(ctx_json(100 + i as u64).as_str()).expect("ctx")))
-                .collect(),
-            resolver_seen: vec![None; nctx],
-        };
+        let mut w = World::new(nctx);
         // execute in the order runSched prescribes
         let (mut i, mut j, mut k) = (0, 0, 0);
         let (mut o1, mut o2): (Vec<String>, Vec<String>) = (vec![], vec![]);
@@ -300,31 +386,24 @@ fn model_cases(run: &mut Run, rng: &mut Rng) {
                 j += 1;
             }
         }
-        let txt = |v: &[Op]| if v.is_empty() { "-".to_string() } else { v.iter().map(|o| o.text()).collect::<Vec<_>>().join(",") };
-        let req = format!(
-            "C24 sched p={} q={} s={} nctx={nctx} nthr={nthr}",
-            txt(&p),
-            txt(&q),
-            sched.iter().map(|b| if *b { '1' } else { '0' }).collect::<String>()
-        );
+        let req = format!("C24 sched p={} q={} s={} nctx={nctx} nthr={nthr}", txt(&p), txt(&q), sched.iter().map(|b| if *b { '1' } else { '0' }).collect::<String>());
         let imp = format!("{}|{}", o1.join(","), o2.join(","));
-        if !overlap && !p.is_empty() && !q.is_empty() {
+        if compatible && !p.is_empty() && !q.is_empty() {
             run.nontrivial(req.clone());
         }
-        run.count(if overlap { "sched_overlapping_cells" } else { "sched_disjoint_cells" });
+        run.count(match (compatible, shares) {
+            (true, false) => "sched_disjoint_cells",
+            (true, true) => "sched_shared_cells_safe_ops",
+            (false, _) => "sched_conflicting",
+        });
         let idx = run.case(req, imp.clone());
-        if imp.contains("builder-mismatch") || imp.contains("resolver-changed") || imp.contains("worker-died") || imp.contains("flag-inconsistent") {
+        if ANOMALIES.iter().any(|a| imp.contains(a)) {
             run.fail(idx, "context-state-anomaly", imp);
         }
-        // oracle (independent of the model): with disjoint cells the outputs equal the sequential ones
-        if !overlap {
+        // oracle (independent of the model): compatible programs give the sequential outputs
+        if compatible {
             let workers2 = Workers::new(nthr);
-            let mut w2 = World {
-                ctxs: (0..nctx)
-                    .map(|i| Arc::new(Context::new().with_settings(ctx_json(100 + i as u64).as_str()).expect("ctx")))
-                    .collect(),
-                resolver_seen: vec![None; nctx],
-            };
+            let mut w2 = World::new(nctx);
             let s1: Vec<String> = p.iter().map(|o| exec_op(&mut w2, &workers2, nthr, o, 0)).collect();
             let s2: Vec<String> = q.iter().map(|o| exec_op(&mut w2, &workers2, nthr, o, nthr - 1)).collect();
             if s1 != o1 || s2 != o2 {
@@ -334,21 +413,95 @@ fn model_cases(run: &mut Run, rng: &mut Rng) {
     }
 }
 
-fn read_report(ctx: &Arc<Context>, fmt: &str, data: &[u8]) -> Result<String, String> {
-    match Reader::from_shared_context(ctx).with_stream(fmt, Cursor::new(data.to_vec())) {
-        Ok(r) => {
-            let mut v: serde_json::Value = serde_json::from_str(&r.json()).unwrap_or_default();
-            if let Some(vr) = v.get_mut("validation_results").and_then(|x| x.as_object_mut()) {
-                vr.remove("validationTime");
+/// n programs = n threads (1–16) in a prescribed total order, against `runSchedN`.
+fn model_cases_n(run: &mut Run, rng: &mut Rng) {
+    let n = if run.thorough() { 1200 } else { 140 };
+    for _ in 0..n {
+        let mut r = rng.fork();
+        let nprog = [1usize, 2, 3, 4, 5, 8, 16][r.below(7) as usize];
+        // flavours: 0 = program i owns context i and thread i; 1 = all share 1–2 contexts, safe ops; 2 = anything
+        let flavour = r.below(4).min(2);
+        let nctx = if flavour == 0 { nprog } else { r.range(1, 2) as usize };
+        let nthr = nprog;
+        let progs: Vec<Vec<Op>> = (0..nprog)
+            .map(|i| {
+                let len = r.range(0, 3) as usize;
+                match flavour {
+                    0 => gen_prog(&mut r, &[i], &[i], len, false),
+                    1 => gen_prog(&mut r, &(0..nctx).collect::<Vec<_>>(), &(0..nthr).collect::<Vec<_>>(), len, true),
+                    _ => gen_prog(&mut r, &(0..nctx + 1).collect::<Vec<_>>(), &(0..nthr).collect::<Vec<_>>(), len, false),
+                }
+            })
+            .collect();
+        let total: usize = progs.iter().map(|p| p.len()).sum();
+        let sched: Vec<usize> = (0..total + 3).map(|_| r.below(nprog as u64 + 1) as usize).collect();
+        let compatible = (0..nprog).all(|i| (i + 1..nprog).all(|j| progs[i].iter().all(|a| progs[j].iter().all(|b| compat(a, b)))));
+
+        let workers = Workers::new(nthr);
+        let mut w = World::new(nctx);
+        let mut next = vec![0usize; nprog];
+        let mut outs: Vec<Vec<String>> = vec![vec![]; nprog];
+        for &i in &sched {
+            if i < nprog && next[i] < progs[i].len() {
+                let o = exec_op(&mut w, &workers, nthr, &progs[i][next[i]], i);
+                outs[i].push(o);
+                next[i] += 1;
             }
-            Ok(format!("{:?}:{}", r.validation_state(), canon_json(&v)))
         }
-        Err(Error::OperationCancelled) => Err("cancelled".into()),
-        Err(e) => Err(format!("{e:?}").chars().take_while(|c| c.is_ascii_alphanumeric()).collect()),
+        for i in 0..nprog {
+            while next[i] < progs[i].len() {
+                let o = exec_op(&mut w, &workers, nthr, &progs[i][next[i]], i);
+                outs[i].push(o);
+                next[i] += 1;
+            }
+        }
+        let req = format!(
+            "C24 schedn ps={} s={} nctx={nctx} nthr={nthr}",
+            progs.iter().map(|p| txt(p)).collect::<Vec<_>>().join("/"),
+            if sched.is_empty() { "-".to_string() } else { sched.iter().map(|i| i.to_string()).collect::<Vec<_>>().join(".") }
+        );
+        let imp = outs.iter().map(|o| o.join(",")).collect::<Vec<_>>().join("|");
+        if compatible && progs.iter().filter(|p| !p.is_empty()).count() >= 2 {
+            run.nontrivial(req.clone());
+        }
+        run.count(&format!("schedn_{}_{}", nprog, if compatible { "compatible" } else { "conflicting" }));
+        let idx = run.case(req, imp.clone());
+        if ANOMALIES.iter().any(|a| imp.contains(a)) {
+            run.fail(idx, "context-state-anomaly", imp);
+        }
+        if compatible {
+            let workers2 = Workers::new(nthr);
+            let mut w2 = World::new(nctx);
+            let seq: Vec<Vec<String>> = progs.iter().enumerate().map(|(i, p)| p.iter().map(|o| exec_op(&mut w2, &workers2, nthr, o, i)).collect()).collect();
+            if seq != outs {
+                run.fail(idx, "interleaving-differs-from-sequential", format!("{nprog} threads: interleaved {outs:?} sequential {seq:?}"));
+            }
+        }
     }
 }
 
+/// Sign `src` through a builder on the (shared) context, whose signer comes from its settings;
+/// the abstracted report of the result as read by `reader_ctx`.
+fn sign_report(ctx: &Arc<Context>, reader_ctx: &Arc<Context>, fmt: &str, src: &[u8]) -> String {
+    let mut b = match Builder::from_shared_context(ctx).with_definition(definition("c24", fmt).as_str()) {
+        Ok(b) => b,
+        Err(e) => return format!("err:{e:?}").chars().take(40).collect(),
+    };
+    let mut out = Cursor::new(Vec::new());
+    match b.save_to_stream(fmt, &mut Cursor::new(src.to_vec()), &mut out) {
+        Ok(_) => cc::abstract_report(&cc::read_with(reader_ctx, fmt, &out.into_inner())),
+        Err(Error::OperationCancelled) => "cancelled".into(),
+        Err(e) => format!("err:{e:?}").chars().take(40).collect(),
+    }
+}
+
+fn short(s: &str) -> &str {
+    &s[..s.len().min(70)]
+}
+
 fn concurrency(run: &mut Run, rng: &mut Rng) {
+    // everything below is prepared on the main thread, whose thread-local settings are never written
+    let clean_tls = cc::tls_full();
     let mut assets: Vec<(String, Vec<u8>)> = vec![];
     for (fmt, name) in unsigned_sources() {
         if let Ok(src) = std::fs::read(fixtures().join(name)) {
@@ -365,57 +518,90 @@ fn concurrency(run: &mut Run, rng: &mut Rng) {
             assets.push(("image/jpeg".to_string(), d));
         }
     }
+    // an asset signed with the fixture credential (trust lists in a poisoned thread-local would change its report)
+    let src_jpg = std::fs::read(fixtures().join("IMG_0003.jpg")).unwrap_or_default();
+    let shared_settings = ctx_json(150, 0);
+    if let Ok(a) = cc::sign_with_settings(&shared_settings, "image/jpeg", &src_jpg, "c24-fixture-signed") {
+        assets.push(("image/jpeg".to_string(), a));
+    }
+    let leaky_idx = match leaky_asset() {
+        Ok(a) => {
+            assets.push(("video/mp4".to_string(), a.clone()));
+            Some(assets.len() - 1)
+        }
+        Err(e) => {
+            run.notes.push(format!("crafted BMFF asset not available: {e}"));
+            None
+        }
+    };
+    let poisons = cc::poisons();
+    let poisons_ok = poisons.iter().all(|p| Settings::new().with_json(p).is_ok());
+    run.obligations.insert("poison-settings-are-valid-settings".to_string(), poisons_ok);
     let assets = Arc::new(assets);
-    let base_ctx = Arc::new(Context::new().with_settings(ctx_json(150).as_str()).expect("ctx"));
-    let baseline: Vec<Result<String, String>> = assets.iter().map(|(f, d)| read_report(&base_ctx, f, d)).collect();
-    let baseline = Arc::new(baseline);
+    let src_jpg = Arc::new(src_jpg);
+    let base_ctx = Arc::new(Context::new().with_settings(shared_settings.as_str()).expect("ctx"));
+    let baseline: Arc<Vec<String>> = Arc::new(assets.iter().map(|(f, d)| cc::read_with(&base_ctx, f, d)).collect());
+    let sign_baseline = sign_report(&base_ctx, &base_ctx, "image/jpeg", &src_jpg);
+    if !(sign_baseline.starts_with("Valid") || sign_baseline.starts_with("Trusted")) {
+        run.notes.push(format!("baseline sign on a context with a signer from settings: {}", short(&sign_baseline)));
+    }
+    run.obligations.insert("baseline-sign-through-settings-signer-works".to_string(), sign_baseline.starts_with("Valid") || sign_baseline.starts_with("Trusted"));
+    let sign_baseline = Arc::new(sign_baseline);
+
     let rounds = if run.thorough() { 40 } else { 8 };
     for round in 0..rounds {
         let nthreads = [1usize, 2, 3, 4, 8, 16][rng.below(6) as usize];
-        let shared = rng.chance(1, 2);
-        let shared_ctx = Arc::new(Context::new().with_settings(ctx_json(150).as_str()).expect("ctx"));
-        let victim = Arc::new(Context::new().with_settings(ctx_json(151).as_str()).expect("ctx"));
+        let shared = rng.chance(2, 3);
+        let shared_ctx = Arc::new(Context::new().with_settings(shared_settings.as_str()).expect("ctx"));
+        let victim = Arc::new(Context::new().with_settings(ctx_json(151, 1).as_str()).expect("ctx"));
         let barrier = Arc::new(Barrier::new(nthreads + 1));
         let mut handles = vec![];
         for t in 0..nthreads {
             let seed = rng.next();
-            let assets = assets.clone();
-            let baseline = baseline.clone();
-            let barrier = barrier.clone();
-            let ctx = if shared { shared_ctx.clone() } else { Arc::new(Context::new().with_settings(ctx_json(150).as_str()).expect("ctx")) };
-            let victim = victim.clone();
+            let (assets, baseline, barrier, victim, src_jpg, sign_baseline) = (assets.clone(), baseline.clone(), barrier.clone(), victim.clone(), src_jpg.clone(), sign_baseline.clone());
+            let ctx = if shared { shared_ctx.clone() } else { Arc::new(Context::new().with_settings(shared_settings.as_str()).expect("ctx")) };
+            let base_ctx = base_ctx.clone();
+            let poison = poisons[(t + round) % poisons.len()].clone();
             handles.push(std::thread::spawn(move || {
                 let mut r = Rng::new(seed);
                 let mut fails: Vec<(String, String)> = vec![];
-                let before = tls_value();
+                // legacy thread-local settings that differ from the context's in settings that matter
+                let _ = Settings::from_string(&poison, "json");
+                let before = cc::tls_full();
                 barrier.wait();
                 for _ in 0..4 {
                     let i = r.below(assets.len() as u64) as usize;
                     if r.chance(1, 3) {
                         std::thread::sleep(std::time::Duration::from_micros(r.below(300)));
                     }
-                    match r.below(6) {
-                        0 => {
-                            victim.cancel(); // cancelling ANOTHER context
-                        }
+                    match r.below(8) {
+                        0 => victim.cancel(), // cancelling ANOTHER context
                         1 => {
                             let out = build_settings(300 + t as u64);
                             if out != (300 + t as u64).to_string() {
                                 fails.push(("settings-builder-wrong".into(), out));
                             }
                         }
+                        2 | 3 => {
+                            // SIGN on the (shared) context: lazily created signer cell, builder settings
+                            let got = sign_report(&ctx, &base_ctx, "image/jpeg", &src_jpg);
+                            if got != *sign_baseline {
+                                fails.push(("concurrent-sign-differs".into(), format!("thread {t}: {} vs baseline {}", short(&got), short(&sign_baseline))));
+                            }
+                        }
                         _ => {
                             let (f, d) = &assets[i];
-                            let got = read_report(&ctx, f, d);
+                            let got = cc::read_with(&ctx, f, d);
                             if got != baseline[i] {
-                                fails.push(("concurrent-read-differs".into(), format!("asset {i} ({f}) thread {t}: {:?} vs sequential {:?}", got.as_ref().map(|s| &s[..s.len().min(60)]), baseline[i].as_ref().map(|s| &s[..s.len().min(60)]))));
+                                let class = if Some(i) == leaky_idx { "context-read-depends-on-thread-local-settings" } else { "concurrent-read-differs" };
+                                fails.push((class.into(), format!("asset {i} ({f}) thread {t}: {} vs clean-thread baseline {}", short(&got), short(&baseline[i]))));
                             }
                         }
                     }
                 }
-                let after = tls_value();
+                let after = cc::tls_full();
                 if before != after {
-                    fails.push(("thread-local-settings-changed".into(), format!("thread {t}: legacy settings value {before} -> {after}")));
+                    fails.push(("thread-local-settings-changed".into(), format!("thread {t}: some key of the legacy settings moved")));
                 }
                 fails
             }));
@@ -444,15 +630,15 @@ fn concurrency(run: &mut Run, rng: &mut Rng) {
             let assets = assets.clone();
             hs.push(std::thread::spawn(move || {
                 let (f, d) = &assets[t % assets.len()];
-                (0..2).map(|_| read_report(&v, f, d)).collect::<Vec<_>>()
+                (0..2).map(|_| cc::read_with(&v, f, d)).collect::<Vec<_>>()
             }));
         }
         for h in hs {
             if let Ok(results) = h.join() {
                 for r in results {
-                    if r != Err("cancelled".to_string()) {
+                    if r != "cancelled" {
                         let idx = run.reqs.len().saturating_sub(1);
-                        run.fail(idx, "cancelled-context-ran-an-operation", format!("round {round}: an operation on a cancelled shared context returned {:?}", r.map(|s| s[..s.len().min(40)].to_string())));
+                        run.fail(idx, "cancelled-context-ran-an-operation", format!("round {round}: an operation on a cancelled shared context returned {}", short(&r)));
                     }
                 }
             }
@@ -465,10 +651,88 @@ fn concurrency(run: &mut Run, rng: &mut Rng) {
         run.count(&format!("threads_{nthreads}"));
         run.nontrivial(format!("round {round} {nthreads} {shared}"));
     }
+
+    // cancelling the SHARED context while others run: every operation ends `cancelled` or with
+    // its baseline result, nothing else; once a thread has seen `cancelled` it sees nothing else
+    let rounds = if run.thorough() { 30 } else { 6 };
+    let mut saw_both = false;
+    for round in 0..rounds {
+        let nthreads = [2usize, 3, 4, 8, 16][rng.below(5) as usize];
+        let target = Arc::new(Context::new().with_settings(shared_settings.as_str()).expect("ctx"));
+        let barrier = Arc::new(Barrier::new(nthreads + 2));
+        let mut handles = vec![];
+        for t in 0..nthreads {
+            let seed = rng.next();
+            let (assets, baseline, barrier, target, src_jpg, sign_baseline, base_ctx) = (assets.clone(), baseline.clone(), barrier.clone(), target.clone(), src_jpg.clone(), sign_baseline.clone(), base_ctx.clone());
+            handles.push(std::thread::spawn(move || {
+                let mut r = Rng::new(seed);
+                let mut fails: Vec<(String, String)> = vec![];
+                let (mut n_ok, mut n_cancelled) = (0, 0);
+                barrier.wait();
+                for k in 0..5 {
+                    let i = r.below(assets.len() as u64) as usize;
+                    let (got, base) = if r.chance(1, 4) {
+                        (sign_report(&target, &base_ctx, "image/jpeg", &src_jpg), sign_baseline.as_str().to_string())
+                    } else {
+                        let (f, d) = &assets[i];
+                        (cc::read_with(&target, f, d), baseline[i].clone())
+                    };
+                    if got == "cancelled" {
+                        n_cancelled += 1;
+                    } else if got == base {
+                        if n_cancelled > 0 {
+                            fails.push(("cancel-not-sticky".into(), format!("thread {t} op {k}: baseline result after an earlier operation of this thread was cancelled")));
+                        }
+                        n_ok += 1;
+                    } else {
+                        fails.push(("cancelled-shared-context-wrong-result".into(), format!("thread {t} op {k}: neither cancelled nor baseline: {}", short(&got))));
+                    }
+                }
+                (fails, n_ok, n_cancelled)
+            }));
+        }
+        let delay = rng.below(60_000);
+        let canceller = {
+            let (target, barrier) = (target.clone(), barrier.clone());
+            std::thread::spawn(move || {
+                barrier.wait();
+                std::thread::sleep(std::time::Duration::from_micros(delay));
+                target.cancel();
+            })
+        };
+        barrier.wait();
+        let _ = canceller.join();
+        let (mut ok, mut can) = (0, 0);
+        for h in handles {
+            match h.join() {
+                Ok((fails, a, b)) => {
+                    ok += a;
+                    can += b;
+                    for (class, detail) in fails {
+                        let idx = run.reqs.len().saturating_sub(1);
+                        run.fail(idx, &class, format!("cancel round {round} ({nthreads} threads): {detail}"));
+                    }
+                }
+                Err(_) => {
+                    let idx = run.reqs.len().saturating_sub(1);
+                    run.fail(idx, "panic", format!("cancel round {round}: worker thread panicked"));
+                }
+            }
+        }
+        if ok > 0 && can > 0 {
+            saw_both = true;
+        }
+        run.count("cancel_shared_rounds");
+        run.nontrivial(format!("cancel-round {round} {nthreads} ok={} cancelled={}", ok > 0, can > 0));
+    }
+    run.notes.push(format!("cancel-shared rounds: some round had both completed and cancelled operations: {saw_both}"));
+    // the main thread's legacy settings were never touched by anything above
+    run.obligations.insert("main-thread-legacy-settings-untouched".to_string(), clean_tls == cc::tls_full());
 }
 
 pub fn run(run: &mut Run, rng: &mut Rng) {
-    run.rule = "(a) two random programs (0–5 ops each) over 1–4 real contexts and 1–3 real threads executed in a random total order; non-trivial = both programs non-empty and on disjoint cells (the theorem's hypothesis); overlapping cells are also generated (the model must still agree). (b) rounds of 1–16 real threads × shared/distinct contexts doing reads of signed assets, cancelling another context and calling settings builders with random delays; results compared with the sequential baseline".to_string();
+    run.rule = "(a) random programs (0–5 ops each) over 1–4 real contexts and real threads executed in a random total order: two programs (`sched`) and 1–16 programs (`schedn`); non-trivial = ≥2 non-empty programs satisfying the theorems' hypothesis (any two ops of different programs touch different cells or are both shared-safe); conflicting programs are also generated (the model must still agree). Worker threads carry legacy thread-local settings that differ from every context's settings. (b) rounds of 1–16 real threads × shared/distinct contexts doing reads AND signs (signer from the context's settings), cancelling another context and calling settings builders with random delays, each thread with poisoned legacy settings; results compared with a clean-thread baseline, every key of the legacy settings watched; rounds that cancel the shared context mid-run (each op cancelled or baseline, cancelled is sticky)".to_string();
     model_cases(run, rng);
+    model_cases_n(run, rng);
     concurrency(run, rng);
 }
